@@ -14,7 +14,7 @@ theorem who_line {s : Srv} {b : Bot} (h : AtSrv s b) (sc : SChan) {p : Str × Fl
   simp only [Srv.displayUser, hu, Option.getD_some]
   by_cases hx : s.cfg.whox = true
   · simp only [hx, ↓reduceIte, recv_emit]
-    have hfeed := feed_server (b := b) hsv hne "354".toList
+    have hfeed := feed_server (b := b) h.isup hsv hne "354".toList
       [['1'], u.ident, "255.255.255.255".toList, u.host, u.nick, 'H' :: sigils s.cfg p.2, ['0'], "real name".toList]
       (by simp only [Bot.ircCmd, cmdOf_354])
     rw [h.nick] at hfeed
@@ -22,7 +22,7 @@ theorem who_line {s : Srv} {b : Bot} (h : AtSrv s b) (sc : SChan) {p : Str × Fl
     simp only [Bot.stateCmd, cmdOf_354, Bot.do354, ↓reduceIte, hk]
     rfl
   · simp only [hx, Bool.false_eq_true, ↓reduceIte, recv_emit]
-    have hfeed := feed_server (b := b) hsv hne "352".toList
+    have hfeed := feed_server (b := b) h.isup hsv hne "352".toList
       [sc.name, u.ident, u.host, s.cfg.server, u.nick, 'H' :: sigils s.cfg p.2, "0 real name".toList]
       (by simp only [Bot.ircCmd, cmdOf_352])
     rw [h.nick] at hfeed
@@ -43,7 +43,7 @@ theorem who_lines {s : Srv} (sc : SChan) (key : Str) (ps : List (Str × Flags)) 
     simp only [List.map_cons, recvAll_cons]
     rw [who_line h sc hu hk]
     have hf1 : Frame s key b { b with n2h := aset b.n2h p.1 u.mask } := by
-      refine ⟨rfl, rfl, rfl, rfl, fun _ _ => rfl, fun x => ?_⟩
+      refine ⟨rfl, rfl, rfl, rfl, rfl, fun _ _ => rfl, fun x => ?_⟩
       show aget (aset b.n2h p.1 u.mask) x = _ ∨ _
       rw [aget_aset]
       by_cases hx : p.1 = x
@@ -67,7 +67,7 @@ theorem who_reply {s : Srv} {b : Bot} (h : AtSrv s b) {k : Str} {sc : SChan} (hs
   simp only [recvAll_append]
   obtain ⟨hf, hc, hn⟩ := who_lines (s := s) sc k sc.members h (membersOK_of_wf h.wf hsc)
   obtain ⟨hsv, hne⟩ := (h.frame hf).server
-  have hfeed := feed_server (b := b.recvAll (sc.members.map (s.whoLine sc))) hsv hne "315".toList
+  have hfeed := feed_server (b := b.recvAll (sc.members.map (s.whoLine sc))) (h.frame hf).isup hsv hne "315".toList
     [sc.name, "End of /WHO list.".toList] (by simp only [Bot.ircCmd, cmdOf_315]; rfl)
   rw [(h.frame hf).nick] at hfeed
   simp only [recvAll_cons, recv_emit, recvAll_nil, hfeed, Bot.stateCmd, cmdOf_315]
@@ -83,7 +83,7 @@ theorem coupled_of_frame {s s' : Srv} {b b' : Bot} {k : Str} (hc : Coupled s b) 
     Coupled s' b' := by
   have hbk : s'.botKey = s.botKey := by simp [Srv.botKey, hbot]
   refine ⟨by rw [hbot]; exact hf.nick.trans hc.nick, ?_, ?_, ?_, by rw [hcfg]; exact hf.cfgNick.trans hc.cfgNick,
-    by rw [hcfg]; exact hf.cfgIdent.trans hc.cfgIdent⟩
+    by rw [hcfg]; exact hf.cfgIdent.trans hc.cfgIdent, by rw [hf.isup]; exact hc.isup⟩
   · intro k'
     rw [hch]
     by_cases hk : k' = k
@@ -203,7 +203,7 @@ theorem coupled_names {s : Srv} {b : Bot} (hw : SrvWF s) (hc : Coupled s b) (c :
       | none => rw [hbc] at hrel; simp only [ChanRel] at hrel; rw [Srv.botIn] at hb; rw [hb] at hrel; cases hrel
       | some ch =>
         rw [hbc] at hrel
-        obtain ⟨hf, ⟨ch', hch', hr⟩, hn⟩ := names_reply ⟨hw, hc.nick⟩ hch hbc
+        obtain ⟨hf, ⟨ch', hch', hr⟩, hn⟩ := names_reply ⟨hw, hc.nick, hc.isup⟩ hch hbc
         refine coupled_of_frame hc hf rfl rfl rfl rfl (fun _ _ => ⟨rfl, rfl⟩) ?_ ?_
         · rw [hch, hch']
           exact ⟨hrel.1, matches_after_names hrel.2 (hw.chans _ _ hch).modes hr⟩
@@ -227,7 +227,7 @@ theorem coupled_replyWho {s : Srv} {b : Bot} (hw : SrvWF s) (hc : Coupled s b) (
   split
   · rename_i sc hch
     rw [Srv.chan_eq] at hch
-    obtain ⟨hf, hcs, hn⟩ := who_reply (b := b) ⟨hw, hc.nick⟩ hch
+    obtain ⟨hf, hcs, hn⟩ := who_reply (b := b) ⟨hw, hc.nick, hc.isup⟩ hch
     refine coupled_of_frame hc hf rfl rfl rfl rfl (fun _ _ => ⟨rfl, rfl⟩) ?_ ?_
     · rw [hcs]; exact hc.chans (lower c)
     · intro x u hux ht
